@@ -736,7 +736,14 @@ class Gen:
         x = self.fresh('i')
         c = r.random()
         before = dict(sc.vars); fbefore = dict(sc.funcs)
-        if c < 0.5:
+        if c < 0.1:
+            self.features.add('walrus-in-for-iterable')
+            src_ = self.fresh('ws')
+            self.emit(ind, f'for {x} in ({src_} := {self.list_expr(sc, 1)}):')
+            sc.vars[x] = INT
+            before[src_] = LIST
+            sc.vars[src_] = LIST
+        elif c < 0.5:
             self.emit(ind, f'for {x} in {self.list_expr(sc)}:')
             sc.vars[x] = INT
         elif c < 0.7:
@@ -768,8 +775,13 @@ class Gen:
         sc.vars[i] = INT
         sc.protected.add(i)
         before = dict(sc.vars); fbefore = dict(sc.funcs)
-        self.emit(ind, f'while {i} < {self.r.randint(1, 4)}:')
-        self.emit(ind + 1, f'{i} += 1')
+        if self.r.random() < 0.3:
+            # the loop variable is advanced by an assignment expression in the test itself
+            self.features.add('walrus-in-while-test')
+            self.emit(ind, f'while ({i} := {i} + 1) <= {self.r.randint(1, 4)}:')
+        else:
+            self.emit(ind, f'while {i} < {self.r.randint(1, 4)}:')
+            self.emit(ind + 1, f'{i} += 1')
         sc.loop_depth += 1
         self.block(sc, ind + 1, depth - 1)
         sc.loop_depth -= 1
